@@ -181,6 +181,10 @@ type ClientConn struct {
 	PlainAfterFail bool `json:"plain_after_fail,omitempty"`
 	HTTP2          bool `json:"http2,omitempty"`
 	Coalesce       bool `json:"coalesce,omitempty"` // stream clients: write all frames whose time has come in one Write
+	// Straddle: every write ends inside a frame: the last octets of a query
+	// are held back and sent together with the head of the next one (the
+	// final tail follows a second after the last query).
+	Straddle bool `json:"straddle,omitempty"`
 	// AltDst: send to the proxy's second address of the family (a wildcard
 	// UDP listener with multi_routes has to answer from that address).
 	AltDst bool `json:"alt_dst,omitempty"`
